@@ -187,7 +187,9 @@ def build(spec):
     if spec.get("window_at") is not None:
         # (statement boundaries are fused into macro-steps: the window starts when the
         # client's progress counter shows that the first `window_at` operations completed)
-        prefix = [("rr_prog", 0, spec["window_at"])] + prefix
+        nthreads = len(spec["clients"]) + spec.get("W", spec["max"] + 1)
+        who = [t for t in range(nthreads) if t not in spec.get("hold", [])]
+        prefix = [("rr_prog", 0, spec["window_at"], who)] + prefix
     spec = dict(spec, prefix=prefix)
     return {"system": system, "lo": lo, "universe": U, "clients": programs, "props": props, "twin": twin,
             "prefix": spec.get("prefix", []), "uses_pool": True}
